@@ -30,6 +30,12 @@ def fe(bs, sizes, tiers):
 _FE_Q = [(1, 1), (2, 1), (1, 2), (2, 3), (4,)]
 _FE_T = [(a, b) for a in (1, 2, 3, 4) for b in (1, 2, 3, 4) if a + b <= 5 and (a, b) not in _FE_Q] + [(1, 1, 1), (1, 2, 2), (2, 2, 1), (5,), (3,)]
 OBLIGATIONS += [fe(2, s, ["quick", "thorough"]) for s in _FE_Q] + [fe(2, s, ["thorough"]) for s in _FE_T] + [fe(3, (2, 2), ["thorough"]), fe(3, (3, 4), ["thorough"]), fe(3, (1, 5), ["thorough"])]
+OBLIGATIONS.append(dict(name="fragment_block_always_stored_bs4", harness="harness/C17_fragblock.c", sources=["lib/sqfs/src/inode.c", "lib/util/src/is_memory_zero.c", "lib/util/src/alloc.c"],
+    included_sources=["lib/sqfs/src/block_processor/block_processor.c", "lib/sqfs/src/block_processor/backend.c"], incdirs=["lib/sqfs/src/block_processor"],
+    defines=dict(BS=4), unwind=8, tiers=["quick", "thorough"], timeout=300, fp_map={"do_block": ["cmp_none"], "write_data_block": ["wr_write"]},
+    reach=["sparse_tail", "zero_nosparse_tail", "data_tail"],
+    functions=["process_block (block_processor.c)", "process_completed_fragment, process_completed_block, set_block_size (lib/sqfs/src/block_processor/backend.c)"],
+    bound="one tail-end fragment of 1..4 symbolic bytes with symbolic nosparse / dont_compress flags, no fragment table, then completion of the fragment block it opened"))
 ASSUMPTIONS = ["file/stream constructors around pack_file are recording stubs", "compressor contract stub, xxh32 recording stub in the worker obligation"]
 OUTSIDE = ["first-match-wins over a parsed sort file (line reader + fnmatch) is not encoded; the flag keyword table (decode_flags: string compares over the tokeniser) did not finish within 250 s and is not registered", "the on-disk effect of DONT_FRAGMENT / DONT_DEDUPLICATE is checked in C01 (frontend) and C08 (block writer)"]
 META = dict(
